@@ -21,7 +21,11 @@ func c16Filler(tier int) []byte {
 		vfAssume(c != 0)
 		vfAssume(c != '\n')
 		vfAssume(c != '\r')
-		return []byte{' ', '-', '-', c, '\n', c16WS()}
+		// the comment ends at LF, at a lone CR, or at CRLF
+		if vfChoice(3) == 2 {
+			return []byte{' ', '-', '-', c, '\r', '\n', c16WS()}
+		}
+		return []byte{' ', '-', '-', c, vfIteByte(vfBool(), '\n', '\r'), c16WS()}
 	case 4: // block comment flanked by whitespace
 		c := vfByte()
 		vfAssume(c < 0x80)
